@@ -499,6 +499,11 @@ def guard_env(cname, other, same_type, same_sig, is_quantity=None):
             ('bool', f'isinstance({other}, {cname})'): is_quantity if cname == 'Quantity' else same_type,
             ('bool', f'isinstance({other}, type(self))'): same_type,
             ('bool', f'isinstance({other}, Quantity)'): is_quantity,
+            # the operand of these cases is a quantity / SI object, never a plain number: its exact type is neither float nor int (it is an
+            # instance of float, being a subclass)
+            ('ord', f'type({other})', 'float'): 'lt', ('ord', f'type({other})', 'int'): 'lt',
+            ('bool', f'type({other}) in (float, int)'): False, ('bool', f'type({other}) in (int, float)'): False,
+            ('bool', f'isinstance({other}, (float, int))'): True, ('bool', f'isinstance({other}, (int, float))'): True, ('bool', f'isinstance({other}, float)'): True,
             ('ord', 'self._sisig', f'{other}._sisig'): rel_s, ('ord', 'self.sisig()', f'{other}.sisig()'): rel_s,
             ('ord', 'self._sisig', f'{other}.sisig()'): rel_s, ('ord', 'self.sisig()', f'{other}._sisig'): rel_s}
 
